@@ -85,6 +85,45 @@ CLAIMED = {
         LISTING_NOTE,
         "DESIGN.md 6/C10",
     ),
+    "C05": (
+        "fault_enumeration",
+        "bounded exhaustive enumeration of (module, modification set) x every patch callback k x 3 fault kinds, each run through the real apply() and a whole-IR validator incl. protobuf round trip",
+        "For every scenario the resulting IR is validated (closure of CFG, symbols, expressions and every aux table scanned generically; blocks inside "
+        "intervals; new blocks never overlap; zero-sized blocks only with a reason; addresses; canonical dump unchanged by a protobuf round trip). "
+        "Then for each patch callback k and each fault kind (exception, invalid assembly, undefined symbol) the run is repeated with the fault "
+        "injected and the left-behind IR must satisfy: ir.cfg is the caller's object holding every live edge, no symbol lost its referent, "
+        "closure and serializability.",
+        LISTING_NOTE,
+        "DESIGN.md 6/C05",
+    ),
+    "C07": (
+        "exploration",
+        "bounded exhaustive enumeration of modules x scope kinds x positions x filters x 1-3 registrations over 1-2 passes through the real PassManager against a designation model",
+        "The designated block set is computed from the listing (exit blocks from the input control flow); per registration the multiset of patch "
+        "invocations, the InsertionContext (block, offset, function), UnresolvableScopeError and the resulting bytes (each invocation tag exactly "
+        "once at the designated boundary, registration order at equal positions, across passes) are compared.",
+        LISTING_NOTE,
+        "DESIGN.md 6/C07",
+    ),
+    "C09": (
+        "model_checking",
+        "differential bounded exhaustive enumeration (batch apply vs one-at-a-time in address order, canonical dumps incl. block boundaries) plus invariant checking of the real caches at every hook event (intermediate state) of the batch run",
+        "Every modification set of the bound - in particular patches naming, branching to or calling labels of blocks an earlier modification "
+        "moved, split, joined or deleted - is applied in one context with cache-vs-IR invariants evaluated at every before_modify / after_modify "
+        "/ before_teardown event (block ordering vs positions, functions_by_block vs functionBlocks, return-edge indices vs a CFG scan, the "
+        "reference forest walked without mutation), and one modification per context in address order; the final canonical dumps must agree.",
+        LISTING_NOTE + " Needs the GTIRB_REWRITING_VERIF hook commit in /repo.",
+        "DESIGN.md 2, 6/C09",
+    ),
+    "C11": (
+        "model_checking",
+        "stateless exploration of iteration-order schedules with a deviation bound (gtirb's unordered views wrapped from the harness), exhaustive registration-order permutations, and hash-seed/UUID sub-process runs; oracle = identical canonical dump",
+        "For every scenario every execution in which one answer of gtirb's unordered views is reversed/rotated is run and must give the "
+        "canonical dump of the default schedule (prefix divergence is a hard error); every permutation of the registration order of sets at "
+        "different locations must give one dump; fresh processes with different PYTHONHASHSEED and uuid4 generators must agree.",
+        LISTING_NOTE + " Python-internal set orders not reachable through gtirb accessors are only varied by seeds (sampled).",
+        "DESIGN.md 6/C11",
+    ),
     "C12": (
         "exploration",
         "bounded exhaustive enumeration of token sequences (5 dialects, ELF/PE, trivially_unreachable on/off) through the real Assembler against a declarative position-based reference model and capstone",
@@ -114,6 +153,25 @@ CLAIMED = {
         "and every 64-bit length/validity boundary window, value and minimal length checked by a reference stack evaluator.",
         "Trusted: the reference codec (self-tested against the standard's worked LEB128 examples). The 64-bit range is covered by boundary windows, not value by value (evidence: subspace_exhaustive).",
         "DESIGN.md 6/C14",
+    ),
+    "C16": (
+        "exploration",
+        "bounded exhaustive enumeration of Constraints configurations per ABI; the prologue/epilogue produced by the real rewriting path is executed on a tiny concrete CPU with havoc at the patch body",
+        "For 5 ABIs x clobber subsets x flags x align_stack x preserve_caller_saved x scratch counts x reads x leaf/non-leaf x initial SP alignments the code "
+        "is generated through a real RewritingContext.insert_at/apply, decoded with capstone and run on vf/machine (any instruction outside the modelled "
+        "subset is a hard error); at the marker every declared resource is poisoned; afterwards registers, flags and SP must be restored, no write at or "
+        "above SP or into the red zone, every read slot written by this code, scratch registers well-formed, stack_adjustment exact, body SP aligned.",
+        "Trusted: capstone, the machine models (self-checked on hand-encoded snippets). Register power sets by representatives in quick, 2^14 x86-64 subsets in thorough.",
+        "DESIGN.md 6/C16",
+    ),
+    "C17": (
+        "exploration",
+        "bounded exhaustive enumeration of argument lists x conventions x prologue profiles; the real CallPatch inside the real prologue/epilogue is executed on the concrete CPU up to and across the call",
+        "0..16 arguments over 17 value classes (full product for n <= 2, every position x every class otherwise), default and custom conventions, "
+        "align_stack on/off, every prologue adjustment; at the call the i-th argument must be in the i-th register / stack slot above the shadow space with "
+        "its exact value (symbols = address token), SP aligned, and after the callee returns (popping under callee cleanup) SP is restored.",
+        "Trusted: capstone, the machine models. F8/F9/F35 are known findings matched by signature.",
+        "DESIGN.md 6/C17",
     ),
     "C18": (
         "exploration",
